@@ -1396,6 +1396,14 @@ Section Blocks.
     refines (opt_run blk1 c o) (opt_run blk2 c o).
   Proof. intro H. unfold opt_run. destruct o; [apply H|apply refines_refl]. Qed.
 
+  Lemma elif_go_ref ev1 ev2 blk1 blk2 c alts e :
+    (forall c e, refines (ev1 c e) (ev2 c e)) -> (forall c b, refines (blk1 c b) (blk2 c b)) ->
+    refines (elif_go pol ev1 blk1 c alts e) (elif_go PDefault ev2 blk2 c alts e).
+  Proof.
+    intros He Hb. induction alts as [|[cnd b] rest IH]; simpl; [apply opt_run_ref, Hb|].
+    apply refines_bind; [apply He|]. intro v. apply refines_bind; [auto with ref|]. intros []; [apply Hb|exact IH].
+  Qed.
+
   Lemma case_any_ref ev1 ev2 lv es : (forall e, refines (ev1 e) (ev2 e)) ->
     refines (case_any pol ev1 lv es) (case_any PDefault ev2 lv es).
   Proof. intro H. induction es; simpl; ref_tac. Qed.
@@ -1424,7 +1432,7 @@ Section Blocks.
   Proof.
     intros He Hb. unfold exec_stmt. destruct s; ref_tac;
       try (apply opt_run_ref; exact Hb); try (apply case_go_ref; assumption);
-      try (apply for_loop_ref; exact Hb).
+      try (apply for_loop_ref; exact Hb); try (apply elif_go_ref; assumption).
   Qed.
 
   (** B *)
@@ -1434,6 +1442,12 @@ Section Blocks.
   Proof. intros H c b. unfold run_block. nue_tac. Qed.
   Lemma opt_run_nouerr blk c o : (forall c b, nouerr (blk c b)) -> nouerr (opt_run blk c o).
   Proof. intro H. unfold opt_run. destruct o; nue_tac. Qed.
+  Lemma elif_go_nouerr ev blk c alts e : (forall c e, nouerr (ev c e)) -> (forall c b, nouerr (blk c b)) ->
+    nouerr (elif_go pol ev blk c alts e).
+  Proof.
+    intros He Hb. induction alts as [|[cnd b] rest IH]; simpl; [apply opt_run_nouerr, Hb|].
+    apply nouerr_bind; [apply He|]. intro v. apply nouerr_bind; [auto with nue|]. intros []; [apply Hb|exact IH].
+  Qed.
   Lemma case_any_nouerr ev lv es : (forall e, nouerr (ev e)) -> nouerr (case_any pol ev lv es).
   Proof. intro H. induction es; simpl; nue_tac. Qed.
   Lemma case_go_nouerr ev blk e ws : (forall c e, nouerr (ev c e)) -> (forall c b, nouerr (blk c b)) ->
@@ -1456,7 +1470,7 @@ Section Blocks.
   Proof.
     intros He Hb. unfold exec_stmt. destruct s; nue_tac;
       try (apply opt_run_nouerr; exact Hb); try (apply case_go_nouerr; assumption);
-      try (apply for_loop_nouerr; exact Hb).
+      try (apply for_loop_nouerr; exact Hb); try (apply elif_go_nouerr; assumption).
   Qed.
 End Blocks.
 
@@ -1488,6 +1502,14 @@ Section BlocksC.
 
   Lemma opt_run_agree c o : nu_ctx c = true -> agree PC (opt_run blkP c o) (opt_run blkQ c o).
   Proof. intro Hc. unfold opt_run. destruct o; [apply Hb, Hc|apply agree_ok; exact Hc]. Qed.
+
+  Lemma elif_go_agree c alts e : nu_ctx c = true ->
+    agree PC (elif_go PProbe evP blkP c alts e) (elif_go pol evQ blkQ c alts e).
+  Proof.
+    intro Hc. induction alts as [|[cnd b] rest IH]; simpl; [apply opt_run_agree, Hc|].
+    eapply agree_bind; [apply He, Hc|]. intros v Hv.
+    eapply agree_bind; [apply agr_agree, is_truthy_agr, Hv|]. intros [] _; [apply Hb, Hc|exact IH].
+  Qed.
 
   Lemma case_any_agree c lv es : nu_ctx c = true -> nuP lv ->
     agree T (case_any PProbe (evP c) lv es) (case_any pol (evQ c) lv es).
@@ -1532,9 +1554,9 @@ Section BlocksC.
     - eapply agree_bind; [apply He, Hc|]. intros v Hv. apply agree_ok. apply nu_set_local; assumption.
     - eapply agree_bind; [apply Hb, Hc|]. intros r Hr. apply agree_ok. apply nu_set_local; [exact Hr|reflexivity].
     - eapply agree_bind; [apply He, Hc|]. intros v Hv.
-      eapply agree_bind; [apply HT, Hv|]. intros [] _; [apply Hb, Hc|apply opt_run_agree, Hc].
+      eapply agree_bind; [apply HT, Hv|]. intros [] _; [apply Hb, Hc|apply elif_go_agree, Hc].
     - eapply agree_bind; [apply He, Hc|]. intros v Hv.
-      eapply agree_bind; [apply HT, Hv|]. intros [] _; simpl; [apply opt_run_agree, Hc|apply Hb, Hc].
+      eapply agree_bind; [apply HT, Hv|]. intros [] _; simpl; [apply elif_go_agree, Hc|apply Hb, Hc].
     - eapply agree_bind; [apply case_go_agree, Hc|]. intros [[c' out] m] Hr; simpl in *.
       destruct m; [apply agree_ok; exact Hr|].
       eapply agree_bind; [apply opt_run_agree, Hr|]. intros r2 Hr2. apply agree_ok; exact Hr2.
@@ -1647,7 +1669,7 @@ Proof. vm_compute. repeat split. Qed.
 (** {% if m %}T{% else %}F{% endif %}{{ a }}: strict raises, falsy-strict and the
     default print "F3"; the probe sees the failed lookup. *)
 Definition ex_prog2 : list stmt :=
-  [SIf (EPath n_m []) [SText t_T] (Some [SText t_F]); SOutput (EPath n_a [])].
+  [SIf (EPath n_m []) [SText t_T] [] (Some [SText t_F]); SOutput (EPath n_a [])].
 Example ex_strict_raises_falsy_succeeds :
   render PStrict 10 ex_prog2 [(n_a, VInt 3)] = LErr UndefinedError None
   /\ render PFalsy 10 ex_prog2 [(n_a, VInt 3)] = Ok (t_F ++ [51]%N)
@@ -1772,6 +1794,20 @@ Section SimBlocks.
     rel_res (simP L) (opt_run blk c1 o) (opt_run blk c2 o).
   Proof. intros Hc Hi. unfold opt_run. destruct o; [apply Hblk; assumption|apply rel_ok, Hc]. Qed.
 
+  Lemma elif_go_sim alts e : 
+    incl ((fix ra (a : list (expr * list stmt)) : list str :=
+             match a with [] => [] | (e, b) :: r => roots_e e ++ roots_b b ++ ra r end) alts) L ->
+    incl (match e with Some b => roots_b b | None => [] end) L ->
+    forall c1 c2, sim L c1 c2 ->
+    rel_res (simP L) (elif_go pol ev blk c1 alts e) (elif_go pol ev blk c2 alts e).
+  Proof.
+    intros Hi He c1 c2 Hc. induction alts as [|[cnd b] rest IH]; simpl; [apply opt_run_sim; assumption|].
+    rewrite (Hev c1 c2 cnd Hc) by (eapply incl_app_l; exact Hi). apply incl_app_r in Hi.
+    apply rel_res_same. intro v. apply rel_res_same. intros [].
+    - apply Hblk; [exact Hc|eapply incl_app_l; exact Hi].
+    - apply IH. eapply incl_app_r; exact Hi.
+  Qed.
+
   Lemma case_any_sim c1 c2 lv es : sim L c1 c2 -> incl (flat_map roots_e es) L ->
     case_any pol (ev c1) lv es = case_any pol (ev c2) lv es.
   Proof.
@@ -1817,12 +1853,30 @@ Section SimBlocks.
     - rewrite (Hev c1 c2 e Hc Hi). apply rel_res_same. intro v. apply rel_ok, sim_set_local, Hc.
     - eapply rel_res_bind; [apply Hblk; assumption|]. intros a b [Ha Hb]. rewrite Hb. apply rel_ok, sim_set_local, Ha.
     - rewrite (Hev c1 c2 c Hc) by (eapply incl_app_l; exact Hi). apply incl_app_r in Hi.
+      assert (Ha : incl ((fix ra (a : list (expr * list stmt)) : list str :=
+             match a with [] => [] | (e, b) :: r => roots_e e ++ roots_b b ++ ra r end) elifs) L).
+      { apply incl_app_r, incl_app_l in Hi. clear - Hi.
+        induction elifs as [|[e b] r IH]; simpl in *; [exact Hi|]. rewrite rb_eq in Hi.
+        intros x Hx. apply in_app_or in Hx as [Hx|Hx]; [apply Hi, in_or_app; left; exact Hx|].
+        apply in_app_or in Hx as [Hx|Hx]; [apply Hi, in_or_app; right; apply in_or_app; left; exact Hx|].
+        apply IH; [|exact Hx]. intros y Hy. apply Hi, in_or_app; right. apply in_or_app; right; exact Hy. }
+      assert (Hf : incl (match f with Some b => roots_b b | None => [] end) L).
+      { apply incl_app_r, incl_app_r in Hi. destruct f; simpl; rewrite ?rb_eq in Hi; exact Hi. }
       apply rel_res_same. intro v. apply rel_res_same. intros [].
       + apply Hblk; [exact Hc|eapply incl_app_l; exact Hi].
-      + apply opt_run_sim; [exact Hc|]. apply incl_app_r in Hi. destruct f; simpl; rewrite ?rb_eq in Hi; exact Hi.
+      + apply elif_go_sim; assumption.
     - rewrite (Hev c1 c2 c Hc) by (eapply incl_app_l; exact Hi). apply incl_app_r in Hi.
+      assert (Ha : incl ((fix ra (a : list (expr * list stmt)) : list str :=
+             match a with [] => [] | (e, b) :: r => roots_e e ++ roots_b b ++ ra r end) elifs) L).
+      { apply incl_app_r, incl_app_l in Hi. clear - Hi.
+        induction elifs as [|[e b] r IH]; simpl in *; [exact Hi|]. rewrite rb_eq in Hi.
+        intros x Hx. apply in_app_or in Hx as [Hx|Hx]; [apply Hi, in_or_app; left; exact Hx|].
+        apply in_app_or in Hx as [Hx|Hx]; [apply Hi, in_or_app; right; apply in_or_app; left; exact Hx|].
+        apply IH; [|exact Hx]. intros y Hy. apply Hi, in_or_app; right. apply in_or_app; right; exact Hy. }
+      assert (Hf : incl (match f with Some b => roots_b b | None => [] end) L).
+      { apply incl_app_r, incl_app_r in Hi. destruct f; simpl; rewrite ?rb_eq in Hi; exact Hi. }
       apply rel_res_same. intro v. apply rel_res_same. intros []; simpl.
-      + apply opt_run_sim; [exact Hc|]. apply incl_app_r in Hi. destruct f; simpl; rewrite ?rb_eq in Hi; exact Hi.
+      + apply elif_go_sim; assumption.
       + apply Hblk; [exact Hc|eapply incl_app_l; exact Hi].
     - eapply rel_res_bind.
       + apply case_go_sim; [eapply incl_app_l; exact Hi| |exact Hc].
@@ -1912,3 +1966,17 @@ Proof.
   intros pol f p d x Hx. apply render_depends_only_on_mentioned_roots.
   intros r Hr. apply assoc_remove_key_neq. intro E; subst. exact (Hx Hr).
 Qed.
+
+(** Laziness: a missing variable that is never reached is not looked up — the
+    probe does not abort and the strict render succeeds.  With a = 3, m missing:
+    {% case a %}{% when 3, m %}T{% when m %}F{% endcase %}{% if a or m %}T{% elsif m %}F{% endif %}
+    {{ a if a else m }}{% for i in a, a %}{{ i }}{% else %}{{ m }}{% endfor %} *)
+Definition ex_prog_lazy : list stmt :=
+  [SCase (EPath n_a []) [([ELit (LInt 3); EPath n_m []], [SText t_T])] (Some [SOutput (EPath n_m [])]);
+   SIf (EOr (EPath n_a []) (EPath n_m [])) [SText t_T] [(EPath n_m [], [SText t_F])] (Some [SOutput (EPath n_m [])]);
+   SOutput (ETernary (EPath n_a []) (EPath n_a []) (Some (EPath n_m [])));
+   SFor t_d (EArray [EPath n_a []; EPath n_a []]) None [SOutput (EPath t_d [])] (Some [SOutput (EPath n_m [])])].
+Example ex_unreached_missing_is_not_looked_up :
+  render PProbe 10 ex_prog_lazy [(n_a, VInt 3)] = Ok (t_T ++ t_T ++ [51; 51; 51]%N)
+  /\ render PStrict 10 ex_prog_lazy [(n_a, VInt 3)] = Ok (t_T ++ t_T ++ [51; 51; 51]%N).
+Proof. vm_compute. split; reflexivity. Qed.
